@@ -25,8 +25,8 @@ TRAP_SED = [
 ]
 
 
-def repo_compile_lines(repo):
-    out = subprocess.run(["make", "-n", "-B", "-C", os.path.join(repo, "src"), "all"],
+def repo_compile_lines(repo, makevars=()):
+    out = subprocess.run(["make", "-n", "-B", "-C", os.path.join(repo, "src"), "all"] + list(makevars),
                          capture_output=True, text=True, check=True).stdout
     lines = []
     for ln in out.splitlines():
@@ -146,6 +146,7 @@ def main():
     ap.add_argument("--def", dest="defs", action="append", default=[])
     ap.add_argument("--extra", action="append", default=[])
     ap.add_argument("--no-redirect", action="store_true")
+    ap.add_argument("--makevar", action="append", default=[], help="variable assignment handed to the repository's make (e.g. VEC256_CFLAGS=): the configuration mechanism of options.mak")
     a = ap.parse_args()
 
     a.outdir = os.path.abspath(a.outdir)
@@ -157,7 +158,7 @@ def main():
     if fl.startswith("tsanhook_"):
         fl, variant = "tsanhook", fl.split("_", 1)[1]
     cc = a.cc or ("clang" if fl == "asan" or variant == "clang" else "gcc")
-    lines = repo_compile_lines(a.repo)
+    lines = repo_compile_lines(a.repo, a.makevar)
     extra = []
     opt = a.opt
     if fl == "o0":
@@ -182,7 +183,7 @@ def main():
         extra.append("-D" + d)
     extra += a.extra
     # -w: the dry-run flags contain -Wall -Wextra; warnings are not our business
-    key = tree_hash(a.repo, json.dumps([fl, variant, cc, opt, extra, a.no_redirect]))
+    key = tree_hash(a.repo, json.dumps([fl, variant, cc, opt, extra, a.no_redirect, a.makevar]))
     os.makedirs(a.outdir, exist_ok=True)
     stamp = os.path.join(a.outdir, "STAMP")
     objs = [os.path.join(a.outdir, o) for _, o, _ in lines]
